@@ -34,26 +34,20 @@ def zoom(array, newSize, order=3):
 
     #If array is complex must do 2 interpolations
     if array.dtype==numpy.complex64 or array.dtype==numpy.complex128:
-
-        realInterpObj = interp2d(   numpy.arange(array.shape[0]),
-                numpy.arange(array.shape[1]), array.real, copy=False, 
-                kind=INTERP_KIND[order])
-        imagInterpObj = interp2d(   numpy.arange(array.shape[0]),
-                numpy.arange(array.shape[1]), array.imag, copy=False,
-                kind=INTERP_KIND[order])                 
-        return (realInterpObj(coordsY,coordsX) 
-                            + 1j*imagInterpObj(coordsY,coordsX))
-
-        
+        realInterpObj = RectBivariateSpline(
+                numpy.arange(array.shape[0]), numpy.arange(array.shape[1]),
+                array.real, kx=order, ky=order)
+        imagInterpObj = RectBivariateSpline(
+                numpy.arange(array.shape[0]), numpy.arange(array.shape[1]),
+                array.imag, kx=order, ky=order)
+        return (realInterpObj(coordsX,coordsY)
+                            + 1j*imagInterpObj(coordsX,coordsY))
 
     else:
+        interpObj = RectBivariateSpline(   numpy.arange(array.shape[0]),
+                numpy.arange(array.shape[1]), array, kx=order, ky=order)
+        return interpObj(coordsX,coordsY)
 
-        interpObj = interp2d(   numpy.arange(array.shape[0]),
-                numpy.arange(array.shape[1]), array, copy=False,
-                kind=INTERP_KIND[order])
-
-        #return numpy.flipud(numpy.rot90(interpObj(coordsY,coordsX)))
-        return interpObj(coordsY,coordsX) 
 
 def zoom_rbs(array, newSize, order=3):
     """
